@@ -38,7 +38,7 @@ REACH = {"quick": {"editing-calls": 3000, "deepcopy-cuts": 1000, "warn-once-seco
 
 WARNING = "Warning: A successor has modified the shared dicts"
 HANDON = ["filter", "filter_out", "sort", "unique", "head", "tail", "slice", "copy", "reverse", "sample", "semi_join", "anti_join", "drop_na",
-          "append", "extend", "add", "mul", "chain", "chain"]
+          "append", "extend", "add", "mul", "chain", "chain", "group_by"]
 EDIT = ["modify", "modify_if", "rename", "select", "unselect", "fill_missing_keys", "fill_missing_keys_noarg", "inner_join", "left_join"]
 
 def generate(rng, tier):
@@ -151,6 +151,9 @@ def execute(case):
                 elif op in ("semi_join", "anti_join"):
                     out = getattr(lst, op)(other, join_by[0]) if all("k" in x for x in _items(lst)) else lst.copy()
                 elif op == "drop_na": out = lst.drop_na("k")
+                elif op == "group_by":
+                    # marks the list for grouped operations; whatever it returns (the list itself or another list of the same items) stays in the history
+                    out = lst.group_by("k") if all("k" in x for x in _items(lst)) else lst.copy()
                 elif op == "append": out = lst.append(fresh_items(1, 0)[0])
                 elif op == "extend": out = lst.extend(fresh_items(rng.randint(0, 2), 0))
                 elif op == "add": out = lst + di.ListOfDicts(fresh_items(rng.randint(0, 2), 0))
@@ -241,6 +244,8 @@ def execute(case):
             while a is not None:
                 a.obsolete = True
                 a = a.parent
+        if out is lst:
+            out = None        # the method returned its receiver: same node of the history
         if out is not None:
             if not isinstance(out, di.ListOfDicts):
                 res.violate(f"{op}:not-a-ListOfDicts", f"{type(out)}")
